@@ -183,7 +183,8 @@ class C11(Prop):
         'convertbits_roundtrip', 'decode_total', 'decode_returns', 'decode_accepts_iff', 'mixed_case_rejected',
         'uppercase_accepted', 'encode_decode_all', 'encode_decode', 'encode_total', 'cbech32_new_iff', 'cbech32_new_rejects',
         'cbech32_new_outcomes', 'cbech32_roundtrip', 'detects_le2', 'detects_substitutions_le2',
-        'detects_le4', 'detects_substitutions_le4')]
+        'detects_le4', 'detects_substitutions_le4',
+        'prefix_unique', 'decode_prefix_unique', 'decode_rejects_shorter_prefix')]
     native_theorems = []
     anchors = [('bitcoin/segwit_addr.py', f) for f in (
         'bech32_polymod', 'bech32_hrp_expand', 'bech32_verify_checksum', 'bech32_create_checksum',
